@@ -123,6 +123,24 @@ Proof.
   - vm_compute. repeat split; reflexivity.
 Qed.
 
+(* NewEpoch with coins attached (DNewEpochF): the coins join the balance and no epoch; an empty amount and an early call are refused *)
+Example C09_nonvacuous_with_attached_coins :
+  let h2 := nv_h ++ [ (T0 + 4 * DAY, DNewEpochF true 500 40); (T0 + 4 * DAY, DNewEpochF true 0 0); (T0 + 4 * DAY + 5, DNewEpochF true 1 1) ] in
+  dhist_wf h2 /\
+  dseffects nv_c (dinit 2) h2 =
+    [FNew 1 10000; FNew 2 7777; FPaid 0 [2; 1] 4444; FNew 3 0; FGrace 3; FStray 1000; FPaid 1 [3; 2] 11457; FNew 4 99; FNewF 5 500 40] /\
+  (let s := dsrun nv_c 2 h2 in
+   map (fun e => (de_id e, de_total e, de_avail e, de_claimed e)) (d_epochs s) =
+     [(5, Some 501, Some 501, None); (4, Some 99, Some 99, None); (3, Some 7500, Some 1875, Some 5625);
+      (2, Some 7777, None, Some 7776); (1, Some 10000, None, Some 2500)] /\
+   d_bal s = 3515 /\ sum_avail (d_epochs s) = 2475 /\ strays (dseffects nv_c (dinit 2) h2) = 1040).
+Proof.
+  cbn zeta. split.
+  - unfold dhist_wf. apply Forall_app. split; [apply C09_nonvacuous|].
+    repeat constructor; cbn; lia.
+  - vm_compute. repeat split; reflexivity.
+Qed.
+
 Print Assumptions C09_invariant.
 Print Assumptions C09_epoch_ledger.
 Print Assumptions C09_distributor_solvent.
